@@ -213,10 +213,11 @@ def main() -> None:
     OC._TIER[0] = chk.tier
     known, _ = chk._known()
     # bounded tier first: its worker processes are forked before this process opens any DuckDB connection
+    collect_bounded = None
     if os_flag("VERIF_SKIP_BOUNDED"):
         chk.notes.append("bounded tier skipped (VERIF_SKIP_BOUNDED)")
     else:
-        OC.run_bounded(chk, "C33", list(known))
+        collect_bounded = OC.run_bounded(chk, "C33", list(known))       # worker processes; the P tier is decided meanwhile
     helper_permutations(chk)
     tpl = OC.Templates()
     if tpl.gen_problems:
@@ -226,6 +227,8 @@ def main() -> None:
     OC.provenance_obligations(chk)
     loader_obligations(chk)
     CO.column_use_obligations(chk, replay_columns)
+    if collect_bounded is not None:
+        collect_bounded()
     chk.extra.update(OC.scanned_summary(tpl))
     chk.extra["registry_calls_without_fixed_operand"] = ST.registry_call_arity()
     common_assumptions(chk)
